@@ -149,7 +149,7 @@ func (h *History) Sched(d *Decoded) (string, error) {
 			seg := evs[pos:end]
 			var pre []Ev
 			j := 0
-			for j < len(seg) && (seg[j].K == "cat" || seg[j].K == "create" || seg[j].K == "filenew" || seg[j].K == "filehdr") {
+			for j < len(seg) && (seg[j].K == "cat" || seg[j].K == "create" || seg[j].K == "filenew" || seg[j].K == "filehdr" || seg[j].K == "filedel") {
 				pre = append(pre, seg[j])
 				j++
 			}
@@ -211,6 +211,14 @@ func (h *History) Sched(d *Decoded) (string, error) {
 				}
 				si++
 			}
+		case "destroy":
+			// catalog.RemoveTimeBucket: unlinks of the year files and of category_name, rmdirs
+			var pre []Ev
+			for pos < len(evs) && (evs[pos].K == "filedel" || evs[pos].K == "cat") {
+				pre = append(pre, evs[pos])
+				pos++
+			}
+			out = append(out, fmt.Sprintf("(SEnqueue %s [])", EvsTerm(pre)))
 		case "rotate":
 			return "", fmt.Errorf("step %d: rotate without a preceding checkpoint is not a schedule of the loop", si)
 		case "shutdown":
@@ -483,7 +491,7 @@ func (h *History) ToObs(d *Decoded, k int, ro RecoverOut) Obs {
 		info := h.info(b)
 		exists := false // some year file of the bucket has been created (possibly without header yet)
 		for _, fi := range d.Files {
-			if fi.Bucket == b.Key && fi.CreatAt < k {
+			if fi.Bucket == b.Key && fi.CreatAt < k && !(fi.DelAt > 0 && fi.DelAt <= k) {
 				exists = true
 			}
 		}
